@@ -377,6 +377,33 @@ func genExtension(g *prng.R, idx int) extSpec {
 		}
 		members = append(members, m)
 	}
+	// A typeless value kind with its own property and a holder property
+	// ranged over it alone, as the security vocabulary does for PublicKey
+	// (always in the first vocabulary of a run, one time in three otherwise).
+	if idx == 0 || g.Chance(1, 3) {
+		kt := fmt.Sprintf("Vx%cKeyThing", letters[idx%len(letters)])
+		es.Types = append(es.Types, kt)
+		members = append(members, map[string]interface{}{"id": "https://ext.example/ns#" + kt, "type": "owl:Class", "name": kt,
+			"notes": "Generated typeless value kind.", "url": "https://ext.example/ns#dfn-" + strings.ToLower(kt), "@wtf_typeless": true})
+		holderDomain := []interface{}{ref("Person")}
+		if g.Bool() {
+			holderDomain = append(holderDomain, ref(es.Types[0]))
+		}
+		holderType := []interface{}{"rdf:Property", "owl:ObjectProperty"}
+		if g.Bool() {
+			holderType = append(holderType, "owl:FunctionalProperty")
+		}
+		hp := fmt.Sprintf("vx%cKeyHolder", strings.ToLower(letters)[idx%len(letters)])
+		es.Props = append(es.Props, hp)
+		members = append(members, map[string]interface{}{"id": "https://ext.example/ns#" + hp, "type": holderType, "name": hp, "notes": "Generated holder of a typeless value.",
+			"domain": map[string]interface{}{"type": "owl:Class", "unionOf": holderDomain}, "range": map[string]interface{}{"type": "owl:Class", "unionOf": []interface{}{ref(kt)}},
+			"isDefinedBy": "https://ext.example/ns#dfn-" + strings.ToLower(hp), "url": "https://ext.example/ns#dfn-" + strings.ToLower(hp)})
+		kp := fmt.Sprintf("vx%cKeyText", strings.ToLower(letters)[idx%len(letters)])
+		es.Props = append(es.Props, kp)
+		members = append(members, map[string]interface{}{"id": "https://ext.example/ns#" + kp, "type": []interface{}{"rdf:Property", "owl:FunctionalProperty"}, "name": kp, "notes": "Generated property of a typeless value.",
+			"domain": map[string]interface{}{"type": "owl:Class", "unionOf": []interface{}{ref(kt)}}, "range": map[string]interface{}{"type": "owl:Class", "unionOf": []interface{}{"xsd:string"}},
+			"isDefinedBy": "https://ext.example/ns#dfn-" + strings.ToLower(kp), "url": "https://ext.example/ns#dfn-" + strings.ToLower(kp)})
+	}
 	es.Doc = map[string]interface{}{
 		"@context": []interface{}{
 			map[string]interface{}{"as": "https://www.w3.org/ns/activitystreams", "owl": "http://www.w3.org/2002/07/owl#", "rdf": "http://www.w3.org/1999/02/22-rdf-syntax-ns#",
@@ -393,7 +420,7 @@ func genExtension(g *prng.R, idx int) extSpec {
 func main() {
 	flag.Parse()
 	r := verdict.New("C15", *tier, "exploration")
-	r.Rule = "astool built from the working tree and run in fresh processes (fresh map-iteration seeds) on the four shipped vocabularies: all runs byte-identical, generated file set and comment-free syntax trees equal to the shipped streams package; seeded random extension vocabularies (1..6 types with single and multiple parents, 1..8 properties with random domains, ranges mixing types and literal kinds, functional or not, natural-language or not, withheld-from lists): astool must succeed, the tree must compile, and the streamsmon engine built against that tree with the oracle extended by the extension file must pass C13, C12 and C01; non-trivial = a generator run whose output was compared, or an extension tree that was built and judged; distinct by run / extension"
+	r.Rule = "astool built from the working tree and run in fresh processes (fresh map-iteration seeds) on the four shipped vocabularies: all runs byte-identical, generated file set and comment-free syntax trees equal to the shipped streams package; seeded random extension vocabularies (1..6 types with single and multiple parents, 1..8 properties with random domains, ranges mixing types and literal kinds, functional or not, natural-language or not, withheld-from lists, disjointWith declared on one side only between extension types and against leaf ActivityStreams types, a typeless value kind with a holder property ranged over it alone; the first vocabulary of every run has a fixed skeleton: a chain of types each extending a referenced type and the previous local type, a root type declaring itself disjoint with the chain's last type, a typeless kind): astool must succeed, the tree must compile, and the streamsmon engine built against that tree with the oracle extended by the extension file must pass C13, C12 and C01; non-trivial = a generator run whose output was compared, or an extension tree that was built and judged; distinct by run / extension"
 	r.Assumptions = []string{"extension vocabularies stay inside the constructs the shipped extension files demonstrate; literal ranges are kept lexically unambiguous", "comments are ignored in the shipped comparison (go/parser + go/printer)"}
 	repo := verdict.Repo()
 	root := verdict.Root()
